@@ -194,7 +194,7 @@ func stackScenarios(tier string, r *vlib.Rng) []*scen.Scenario {
 	names := []string{"A", "B", "C"}
 	prios := []int{300, 200, 100}
 	kindsAsserted := []string{"ok", "refuse", "reset0", "open"}
-	kindsAll := []string{"ok", "refuse", "reset0", "open", "close0", "garbage"}
+	kindsAll := []string{"ok", "refuse", "reset0", "dnsfail", "open", "close0", "garbage"}
 	for _, engine := range []string{"sherpa", "olla"} {
 		for _, bal := range []string{"priority", "round-robin", "least-connections"} {
 			for n := 1; n <= 3; n++ {
